@@ -48,7 +48,7 @@ CLAIMED["C05"] = dict(
     text="Random acyclic graphs built through the real GraphBuilder (conditional and essential dependencies, fan-in up to 8 with pending-then-ready dependency lists, fan-out, trivial vertices, asynchronously completing processors), run on the inplace executor, the real thread-pool executor and a thread-per-vertex executor under the simulator, inputs injected before or concurrently with run(), 1-3 run/reset cycles; oracle = a sequential demand-driven reference interpreter (values, emptiness, error code, needed set), at-most-once and dependencies-resolved checks inside the processor, publish-once, wait() vs in-flight vertices, closure vertex count, HB race detector on data payload, reset state. One genuine defect is listed as known finding (vertex started on an already flushed closure after a late external injection).",
     ref="§3 C05", technique="deterministic simulation: seeded graph/schedule search against a sequential reference interpreter")
 CLAIMED["C06"] = dict(
-    text="Exclusive / Shared / Swiss monotonic resources on a recording page allocator (page sizes 128-4096, LIFO-recycling or always-fresh) and a recording upstream resource; request histories with sizes and alignments around every boundary, register_destructor, contains, release and moves at quiescent points, waves of worker threads that exit so thread-local slots are recycled (shared variants under the scheduler; the exclusive variant has no schedule and is the 1-thread case of the same ledger). Oracle: alignment, containment in owned memory, interval map (no overlap), per-block patterns re-verified, destructors/pages/oversize blocks returned exactly once with original size and alignment, accounting zero after release. Four genuine defects found (fixed).",
+    text="Exclusive / Shared / Swiss monotonic resources on a recording page allocator (page sizes 128-4096, LIFO-recycling or always-fresh) and a recording upstream resource; request histories with sizes and alignments around every boundary, register_destructor, contains, release and moves at quiescent points, waves of worker threads that exit so thread-local slots are recycled (shared variants under the scheduler; the exclusive variant has no schedule and is the 1-thread case of the same ledger). Oracle: alignment, containment in owned memory, interval map (no overlap), per-block patterns re-verified, destructors/pages/oversize blocks returned exactly once with original size and alignment, accounting zero after release. The swiss variant is also driven through its google::protobuf::Arena view (CreateArray / Create<T> with destructor, created lazily by racing threads). Four genuine defects found (fixed), one listed as known finding (Arena view after move).",
     ref="§3 C06", technique="deterministic simulation: seeded request-history + schedule search with recording allocators (ledger oracle)")
 CLAIMED["C11"] = dict(level="fault_enumeration", engine="serial",
     text="Stream-fault harness without scheduler (there are no threads or clocks in this property): the environment is the byte stream the parser consumes, owned by the harness through ZeroCopyInput/OutputStream. 84 value shapes incl. protobuf messages; oracle 1: round trip, exact size, stable output, 18 presentations (flat, string, stream chunkings 1/2/3/7/random/zero-size buffers, with and without enclosing limit), protobuf differential in both directions incl. unknown/permuted/absent fields; oracle 2: truncation at every prefix for encodings <= 256 bytes (drawn above), byte flips, length inflation up to 2^64-1, wire-type swaps, nesting, Next() failure, splices, random bytes: parse must terminate, no ASan report, no read beyond the limit, success implies serialize/parse fixpoint. Debug and NDEBUG builds, ASan+UBSan. Three genuine defects fixed, one listed as known finding.",
